@@ -96,7 +96,7 @@ from common import impl_error
 from props import hytera_tables as HT
 
 PROP = "C12"
-MODULES = ["C12", "C12a", "C12b", "C12c", "C12d", "C12t"]
+MODULES = ["C12", "C12a", "C12b", "C12c", "C12d", "C12p", "C12t"]
 GEN = ["Hytera", "TranslHytera"]
 
 TESTS = os.path.join(os.environ.get("VERIF_REPO") or "/repo", "okdmr/tests/dmrlib/hytera")
@@ -4060,6 +4060,30 @@ def run_corpus(ctx, pairs):
             pairs.append((f"{kind}.parse {h}", {"hstrp": impl_hstrp_parse, "hrnp": impl_hrnp_parse, "hdap": impl_hdap_parse}[kind](data)))
 
 
+HRNP_LENGTH_WITNESS = ("7e040000201000070024f4e90900ae0011000000010a0007d10a0007d2b6000000f8ff03",
+                       "7e040000201000070020f4e90900ae0011000000010a0007d10a0007d2b6000000f8ff03")
+
+
+def run_hrnp_length_witness(ctx, pairs):
+    """the repaired defect of the HRNP length octets (C04): a library-serialised TMP-in-HRNP packet and the same with
+    bit 2 of octet 9 inverted (36 -> 32), whose truncated octet range satisfied the checksum; model and code compared on
+    both, the corrupted one must not be checksum_correct"""
+    sent, bad = (bytes.fromhex(h) for h in HRNP_LENGTH_WITNESS)
+    for tag, data in (("sent", sent), ("length-bit-inverted", bad), ("length-bit-inverted+trailing", bad + b"\x7e\x04")):
+        o = call(L.hrnp.HRNP.from_bytes, data)
+        ctx.case(("corpus", "hrnp-length-witness", tag))
+        ctx.count("corpus:hrnp-length-witness")
+        inp = {"corpus": data.hex(), "layer": "hrnp", "witness": tag}
+        if tag == "sent":
+            if isinstance(o, Exc) or o.checksum_correct is not True:
+                ctx.fail("corpus-checksum", inp, "the library-serialised HRNP packet of the length witness does not verify", expected=True, actual=repr(o) if isinstance(o, Exc) else False)
+        elif not isinstance(o, Exc) and o.checksum_correct:
+            ctx.fail("hrnp-length-bit-accepted", inp, "HRNP packet with one inverted bit in the packet-length field is reported checksum_correct (defect repaired by the length cross-check in HRNP.from_bytes)",
+                     expected="checksum_correct false or a decode error", actual="checksum_correct true")
+        if pairs is not None:
+            pairs.append((f"hrnp.parse {data.hex()}", impl_hrnp_parse(data)))
+
+
 def regression_pdus():
     """inputs of the two repaired defects (eccf836, 858bc10) and the shapes the captures never contain"""
     lp, T = L.lp, L.tmp
@@ -4256,6 +4280,7 @@ def run(ctx):
 
     # -------- corpus and regression inputs first
     run_corpus(ctx, pairs)
+    run_hrnp_length_witness(ctx, pairs)
     for kind, p in regression_pdus():
         one_pdu(ctx, rng, p, kind, pairs, sample=kind.endswith("request"))
     if pairs is not None:
